@@ -248,6 +248,19 @@ Definition read_after_resize (old new cdims : list N) (esz : N) (data : bytes) :
 Definition resize_twice_spec (old mid new : list N) (esz : N) (data : bytes) : bytes :=
   resize_arr mid new esz (resize_arr old mid esz data).
 
+(* admissible shapes: rank >= 1, same rank, all extents positive, element size positive *)
+Definition shape_ok (dims cdims : list N) (esz : N) : Prop :=
+  dims <> [] /\ length cdims = length dims /\
+  Forall (fun x => 0 < x) dims /\ Forall (fun x => 0 < x) cdims /\ 0 < esz.
+
+(* every intermediate extent is at least the smaller of the outer two *)
+Fixpoint mid_covers (old mid new : list N) : Prop :=
+  match old, mid, new with
+  | o :: os, m :: ms, n :: ns => N.min o n <= m /\ mid_covers os ms ns
+  | [], [], [] => True
+  | _, _, _ => False
+  end.
+
 Definition all_pos (l : list N) : bool := forallb (fun x => 0 <? x) l.
 
 Definition res_eqb (a : res bytes) (b : bytes) : bool :=
